@@ -212,8 +212,7 @@ def run(db: DB, rep: Report) -> None:
                           "the test %s compares a slice of length %s with '%s' (length %d), which is not a "
                           "prefix of the get_payload label '%s': the test can never (or always) succeed" %
                           (norm(n), norm(hi) if hi is not None else "?", lit, len(lit), src_lits[:1]))
-    if n_pref < 2:
-        raise AnalysisError("fewer than 2 get_payload prefix tests found")
+    few_prefix_tests = n_pref < 2      # decided by T6 (the two sides must still agree)
 
     # ---- T2 / T3 -----------------------------------------------------------------
     rep.rule("T2", "eager trace schema agrees between producers, consumer and tracker", 4)
@@ -399,16 +398,27 @@ def run(db: DB, rep: Report) -> None:
         for n in walk_no_nested(f.node):
             if isinstance(n, ast.If) and (paths.load_names(n.test) & labels):
                 atoms = paths.conjuncts(n.test, True)
-                return n, [norm(a) for a, p in atoms if p]
+                return n, [a for a, p in atoms if p]
         return None, []
-    n1, a1 = filter_pred(Mx.methods["get_collected_tensor_info"])
-    n2, a2 = filter_pred(gt)
+    n1, n1_atoms = filter_pred(Mx.methods["get_collected_tensor_info"])
+    n2, n2_atoms = filter_pred(gt)
     if n1 is None or n2 is None:
         raise AnalysisError("payload-filter predicates not found")
 
     def classify(txts: List[str]) -> Set[str]:
         out = set()
         for t in txts:
+            m_ = re.fullmatch(r"(.+?) not in (\([^()]*\)|\[[^\[\]]*\]|\{[^{}]*\})", t)
+            if m_:
+                # membership in a literal collection is an *exact* comparison with each element
+                try:
+                    elts = ast.literal_eval(m_.group(2))
+                except Exception:
+                    elts = None
+                if elts is not None and all(isinstance(x, str) for x in elts):
+                    for x in elts:
+                        out.add("not-iter" if x == "iter" else "not-exactly:" + x)
+                    continue
             if t.endswith("!= 'iter'"):
                 out.add("not-iter")
             elif "[:11] != 'get_payload'" in t:
@@ -418,16 +428,21 @@ def run(db: DB, rep: Report) -> None:
             else:
                 out.add("other:" + t)
         return out
+    a1 = [paths.inlined_text(a_, Mx.methods["get_collected_tensor_info"].node) for a_ in n1_atoms]
+    a2 = [paths.inlined_text(a_, gt.node) for a_ in n2_atoms]
     c1, c2 = classify(a1), classify(a2)
+    if few_prefix_tests and c1 == c2:
+        raise AnalysisError("fewer than 2 get_payload prefix tests found")
     want = {"payload", "not-iter", "not-get_payload"}
     rep.check("T6", c1 == want, db.loc(n1), "Metrics.get_collected_tensor_info", "filter-pred:registration",
               "registration of the loop's iter trace under %s" % sorted(c1),
               "registration decides 'payload needs the iter filter' under %s, consumption under %s; a "
-              "consumed iter.csv is never registered, or the reverse" % (sorted(c1), sorted(c2)))
+              "consumed iter.csv is never registered, or the reverse" % (sorted(c1), sorted(c2)),
+              decided=not any(x.startswith("other:") for x in c1))
     rep.check("T6", c2 == want, db.loc(n2), gt.short, "filter-pred:consumption",
               "filterTrace against iter.csv under %s" % sorted(c2),
               "consumption decides 'payload needs the iter filter' under %s, registration under %s" %
-              (sorted(c2), sorted(c1)))
+              (sorted(c2), sorted(c1)), decided=not any(x.startswith("other:") for x in c2))
     # the payload selector of the registration side indexes the (coord, payload, elem) tuple
     gsm = Mx.methods["get_source_memory"]
     order = [n for n in walk_no_nested(gsm.node) if isinstance(n, ast.List) and
@@ -545,6 +560,30 @@ def run(db: DB, rep: Report) -> None:
                   (f.short, bad[0][2] if bad else "", norm(bad[0][1].iter)[:40] if bad else "",
                    db.loc(bad[0][1]) if bad else ""))
 
+    # ---- T12: the registration loops cover every level of every traffic path -------------
+    rep.rule("T12", "the loops that register traces iterate whole collections (every path, every level)", 4)
+    from sa.rules.c18 import _narrow_iter
+    for f in (Mx.methods["get_collected_tensor_info"], C.methods["__build_trace_ranks"]):
+        regs = [n for n in walk_no_nested(f.node) if isinstance(n, ast.Call) and isinstance(n.func, ast.Attribute)
+                and (n.func.attr == "__add_collection" or
+                     (n.func.attr == "add" and isinstance(n.func.value, ast.Name)))]
+        seen12 = set()
+        for rg in regs:
+            for lp in [p_ for p_ in paths.parents(rg, f.node) if isinstance(p_, ast.For)]:
+                if id(lp) in seen12:
+                    continue
+                seen12.add(id(lp))
+                why = _narrow_iter(lp.iter)
+                if why is None and isinstance(lp.iter, ast.Name):
+                    v = paths.reaching_def(lp.iter.id, lp, f.node)
+                    if v is not None:
+                        why = _narrow_iter(v)
+                rep.check("T12", why is None, db.loc(lp), f.short, "reg-loop:" + norm(lp.iter)[:50],
+                          "registration loop over %s covers the whole collection" % norm(lp.iter)[:50],
+                          "a loop around the trace registration in %s %s: the traces of the other elements "
+                          "(deeper buffer levels, later paths) are consumed by the traffic model but never "
+                          "registered" % (f.short, why))
+
     # ---- T11: a de-duplication inside a per-element loop is keyed by the element --------
     rep.rule("T11", "trace placement is not skipped by a de-duplication coarser than the element", 30)
     if not _fx_t11():
@@ -632,6 +671,14 @@ def mutants(db: DB):
     col, met, cmp_, hd = ("teaal/trans/collector.py", "teaal/ir/metrics.py", "teaal/ir/component.py",
                           "teaal/trans/header.py")
     return [
+        M("only the first on-chip level registers its traces", "teaal/ir/metrics.py",
+          "                    for component, style in path:\n                        if isinstance(component, DRAMComponent):\n                            continue\n\n                        if style == \"lazy\":",
+          "                    for component, style in path[1:2]:\n                        if isinstance(component, DRAMComponent):\n                            continue\n\n                        if style == \"lazy\":",
+          "T12"),
+        M("consumption compares the get_payload label exactly", "teaal/trans/collector.py",
+          "            if binding[\"type\"] == \"payload\" and fiber_trace != \"iter\" and \\\n                    fiber_trace[:11] != \"get_payload\":",
+          "            if binding[\"type\"] == \"payload\" and fiber_trace not in (\"iter\", \"get_payload\"):",
+          "T6"),
         M("leader looked up per Einsum, not per rank", met,
           "                            leader = \"\"\n                            for binding in coiter.get_bindings()[einsum]:\n                                if binding[\"rank\"] == rank:\n                                    leader = binding[\"leader\"]\n                                    break",
           "                            leader = coiter.get_bindings()[einsum][-1][\"leader\"]", "T7"),
